@@ -1083,6 +1083,23 @@ class ReplaceNodeTransformer(NodeTransformer):
         return super().generic_visit(node)
 
 
+def _statement_owns_its_lines(statement: ast.stmt, lines: Sequence[str]) -> bool:
+    """Whether no other code shares the statement's first and last physical line.
+
+    Fixes replace whole lines, so they cannot be applied to "if c: return x" or
+    to one statement of "a = 1; b = 2" without losing the rest of the line.
+
+    """
+    end_lineno = getattr(statement, "end_lineno", None)
+    end_col_offset = getattr(statement, "end_col_offset", None)
+    if end_lineno is None or end_col_offset is None:
+        return True
+    # column offsets count UTF-8 bytes
+    before = lines[statement.lineno - 1].encode("utf-8")[: statement.col_offset]
+    after = lines[end_lineno - 1].encode("utf-8")[end_col_offset:]
+    return not before.strip() and (not after.strip() or after.lstrip().startswith(b"#"))
+
+
 class ReplacingNodeVisitor(BaseNodeVisitor):
     """A NodeVisitor that enables replacing AST nodes directly in errors."""
 
@@ -1104,6 +1121,8 @@ class ReplacingNodeVisitor(BaseNodeVisitor):
             return None
         transformer = ReplaceNodeTransformer(current_node, new_node)
         lines = self._lines()
+        if not _statement_owns_its_lines(current_statement, lines):
+            return None
         lines_to_remove = analysis_lib.get_line_range_for_node(current_statement, lines)
         indent = analysis_lib.get_indentation(lines[current_statement.lineno - 1])
         node = transformer.visit(current_statement)
@@ -1122,6 +1141,8 @@ class ReplacingNodeVisitor(BaseNodeVisitor):
         if current_statement is None:
             return None
         lines = self._lines()
+        if not _statement_owns_its_lines(current_statement, lines):
+            return None
         lines_to_remove = analysis_lib.get_line_range_for_node(current_statement, lines)
         return Replacement(lines_to_remove, [])
 
